@@ -753,6 +753,8 @@ Proof.
   unfold num_open_axes at 1 in H. rewrite Hvtn in H. cbn [option_map] in H.
   destruct (match joins with [] => Some O | _ :: _ => num_open_axes o end) as [nother|]; [|discriminate].
   destruct (forallb _ joins) eqn:FJ; [|discriminate]. cbn [negb] in H.
+  destruct (joins_starve n o joins) eqn:JS; [discriminate|].
+  unfold merge_changes in H.
   destruct (is_shared_order ordT _ _) eqn:ST; [|discriminate]. cbn [negb] in H.
   destruct (is_shared_order ordB _ _) eqn:SB; [|discriminate]. cbn [negb] in H.
   destruct (relabel_tensors o ordT _ VT) as [[o1 tmp]|] eqn:RT; [|discriminate].
@@ -829,6 +831,18 @@ Proof.
   apply Nat.ltb_lt in A, B. apply Nat.eqb_eq in C. unfold vshape in C. rewrite Hn, Ho in C.
   unfold t_ndim in A, B.
   exists (nth (fst j) (t_shape vtn) O). split; [apply nth_error_nth'; exact A | rewrite C; apply nth_error_nth'; exact B].
+Qed.
+
+(** ... and has found that every (fused) bond keeps at least two legs (the code's last test in
+    front of any change: ValueError "would leave a bond with less than two legs") *)
+Lemma merge_not_starved n o joins ordT ordB n' :
+  merge n o joins ordT ordB = Some n' -> joins_starve n o joins = false.
+Proof.
+  unfold merge. intros H.
+  destruct (num_open_axes n); [|discriminate].
+  destruct (match joins with [] => Some O | _ :: _ => num_open_axes o end); [|discriminate].
+  destruct (negb (forallb _ joins)); [discriminate|].
+  destruct (joins_starve n o joins); [discriminate|reflexivity].
 Qed.
 
 Theorem merge_WF n o joins ordT ordB n' :
